@@ -353,9 +353,12 @@ class RandomWalk(Processor):
         while True:
 
             new_point, index = _take_step(vector_bundle, step_length, last_point, self.maxdim)
+            # the direction of growth is that of the step itself; new_point is
+            # wrapped into the box and can lie on the other side of it
+            step_end = last_point + vector_bundle[index] * step_length
             if fulfill_geometrical_constraints(new_point, self.molecule.nodes[current_node])\
                 and self.checks_milestones(current_node, new_point, step_length)\
-                and is_restricted(new_point, last_point, self.molecule.nodes[current_node])\
+                and is_restricted(step_end, last_point, self.molecule.nodes[current_node])\
                 and self.bendiness(new_point, current_node)\
                 and not self._is_overlap(new_point, current_node):
 
